@@ -65,8 +65,10 @@ fn fires(clock: &SimClock, expr: &str, x: i64, delta_ns: u64) -> Result<(bool, i
     let t = Instant::new(((x - 1) * 60) as u64, 0).add_ns(delta_ns as u128);
     clock.set(t);
     let e = expr.to_string();
+    // both entry points must denote the same sets: alternate between them
+    let via_fromstr = delta_ns % 2 == 1;
     let out = guarded(move || {
-        let mut s = CronSchedule::parse(&e).expect("accepted a moment ago");
+        let mut s = if via_fromstr { e.parse::<CronSchedule>().expect("accepted a moment ago") } else { CronSchedule::parse(&e).expect("accepted a moment ago") };
         s.next().map(|d| d.timestamp())
     });
     match out.result {
@@ -394,8 +396,39 @@ fn normal_form(expr: &str) -> String {
     expr.to_ascii_lowercase()
 }
 
-fn violation(seed: u64, run: u64, source: &str, expr: &str, probe_seed: u64, budget: Budget, f: &Fail) -> Violation {
+fn budget_json(j: Json, b: Budget) -> Json {
+    j.set("budget_day_probes", Json::Int(b.day_probes as i128))
+        .set("budget_full_days", Json::Bool(b.full_days))
+        .set("budget_daemon_steps", Json::Int(b.daemon_steps as i128))
+}
+
+fn budget_from(doc: &Json) -> Budget {
+    Budget {
+        day_probes: doc.get("budget_day_probes").and_then(|v| v.int()).unwrap_or(40) as u32,
+        full_days: doc.get("budget_full_days").and_then(|v| v.bool()).unwrap_or(false),
+        daemon_steps: doc.get("budget_daemon_steps").and_then(|v| v.int()).unwrap_or(0) as u32,
+    }
+}
+
+#[allow(clippy::too_many_arguments)]
+fn violation(seed: u64, run: u64, source: &str, expr: &str, probe_seed: u64, budget: Budget, f: &Fail, history: &[(String, Budget)]) -> Violation {
     let (me, mf) = minimise(expr, probe_seed, budget, f);
+    // the complete history of this work item: everything decided before on the same schedule of calls
+    let full = budget_json(
+        Json::obj()
+            .set("property", Json::s("C16"))
+            .set("engine", Json::s("c16"))
+            .set("invariant", Json::s(f.invariant))
+            .set("seed", Json::Int(seed as i128))
+            .set("run", Json::Int(run as i128))
+            .set("source", Json::s(source))
+            .set("history", Json::Arr(history.iter().map(|(e, b)| budget_json(Json::obj().set("expr", Json::s(e)), *b)).collect()))
+            .set("expr", Json::s(expr))
+            .set("probe_seed", Json::Int(probe_seed as i128))
+            .set("observed", Json::s(&f.observed))
+            .set("expected", Json::s(&f.expected)),
+        budget,
+    );
     let key = match &mf.panic {
         Some(p) => format!("{}:{}", mf.invariant, p.key()),
         None => format!("{}:expr={}", mf.invariant, normal_form(&me)),
@@ -431,6 +464,7 @@ fn violation(seed: u64, run: u64, source: &str, expr: &str, probe_seed: u64, bud
                     None => Json::Null,
                 },
             ),
+        replay_full: Some(full),
     }
 }
 
@@ -485,6 +519,7 @@ pub fn check(tier: &str, seed: u64) -> i32 {
         total,
         |idx, stats| {
             let items = work_item(tier, seed, idx, ex, n_random, n_bases);
+            let mut history: Vec<(String, Budget)> = Vec::new();
             for (k, (source, expr, budget)) in items.iter().enumerate() {
                 stats.inc("c16.expressions");
                 stats.inc(&format!("c16.source.{}", source));
@@ -514,8 +549,9 @@ pub fn check(tier: &str, seed: u64) -> i32 {
                     reach(expr, stats);
                 }
                 if let Err(f) = r {
-                    stats.violations.push(violation(seed, idx, source, expr, probe_seed, *budget, &f));
+                    stats.violations.push(violation(seed, idx, source, expr, probe_seed, *budget, &f, &history));
                 }
+                history.push((expr.clone(), *budget));
                 if idx % 997 == 0 && k == 0 && stats.samples.len() < 6 {
                     stats.samples.push((
                         idx,
@@ -628,12 +664,17 @@ pub fn replay(doc: &Json) -> i32 {
     } else {
         doc.get("exprs").and_then(|v| v.arr()).map(|a| a.iter().filter_map(|e| e.str().map(|s| s.to_string())).collect()).unwrap_or_default()
     };
-    let budget = if doc.get("expr").is_some() {
-        Budget {
-            day_probes: doc.get("budget_day_probes").and_then(|v| v.int()).unwrap_or(40) as u32,
-            full_days: doc.get("budget_full_days").and_then(|v| v.bool()).unwrap_or(false),
-            daemon_steps: doc.get("budget_daemon_steps").and_then(|v| v.int()).unwrap_or(0) as u32,
+    if let Some(hist) = doc.get("history").and_then(|v| v.arr()) {
+        // re-create the state the earlier calls of the run may have left in the code under test
+        for h in hist {
+            if let Some(e) = h.get("expr").and_then(|v| v.str()) {
+                let _ = check_expr(e, probe_seed, budget_from(h), &mut None);
+            }
         }
+        println!("replay: {} earlier expressions of the run re-decided first", hist.len());
+    }
+    let budget = if doc.get("expr").is_some() {
+        budget_from(doc)
     } else if doc.get("tier").and_then(|v| v.str()) == Some("quick") {
         QUICK
     } else {
